@@ -44,6 +44,27 @@ Theorem C17_textfield_cursor_in_range :
 Proof. exact tf_cursor_in_range. Qed.
 Print Assumptions C17_textfield_cursor_in_range.
 
+(* Programmatic edits whose argument is DERIVED FROM THE TEXT THE FIELD HOLDS (derived_from:
+   the current text itself, a prefix or suffix of it, the text twice or extended, another
+   normalisation of it, ...), after any history, with the cursor wherever the history left it:
+   InsertStringAtCursor inserts it at the cursor like any other text (no "already there"
+   shortcut); after Reset, and after Enter, putting such a text back gives exactly that
+   text with the cursor (and the cached count) at its end. *)
+Theorem C17_textfield_reinsert_derived_text :
+  forall (seg : text -> option (list text)) (A : list text),
+    (forall cs, in_alpha A cs -> seg (concat cs) = Some cs) ->
+    forall e0 os, in_alpha A (i_text e0) -> Forall (tf_op_ok A) os ->
+      let e' := i_run (fun _ => false) e0 (map (tf_abs seg) os) in
+      forall ks, derived_from A (i_text e') ks ->
+        (exists log, tf_run seg (tf_of_ideal e0) (os ++ [TInsertApi (concat ks)]) =
+                     Some (tf_of_ideal (i_step (fun _ => false) e' (IIns ks)), log)) /\
+        (exists log, tf_run seg (tf_of_ideal e0) (os ++ [TResetApi; TInsertApi (concat ks)]) =
+                     Some (mkTf (concat ks) (zlen ks) (zlen ks), log)) /\
+        (exists log, tf_run seg (tf_of_ideal e0) (os ++ [TKey TkEnter; TText (concat ks)]) =
+                     Some (mkTf (concat ks) (zlen ks) (zlen ks), log)).
+Proof. exact tf_reinsert_derived. Qed.
+Print Assumptions C17_textfield_reinsert_derived_text.
+
 (* Callbacks, for every oracle, state and operation: Enter calls OnSubmit with the value
    (and nothing else; the field is then reset without an OnChange); any other event calls
    OnChange with the new value iff the value changed; exported methods never call back. *)
@@ -109,6 +130,50 @@ Theorem C17_textinput_cursor_in_range :
       0 <= ti_cursor m' <= zlen (ti_content m').
 Proof. exact ti_cursor_in_range. Qed.
 Print Assumptions C17_textinput_cursor_in_range.
+
+(* SetContent in EVERY state — whatever content, cursor, scroll offset and paste buffer the
+   widget holds, in particular when it already holds exactly the text it is given and the
+   cursor is not at its end: the content becomes the segmentation of the argument and the
+   cursor goes to its end; offset, paste buffer and prompt are kept. *)
+Theorem C17_textinput_setcontent_every_state :
+  forall chars alnum (A : list cluster),
+    (forall cs, in_alpha A cs -> chars (cl_text cs) = Some cs) ->
+    forall (m : ti) ks, in_alpha A ks ->
+      ti_step chars alnum m (OSetContent (cl_text ks)) =
+      TiOk (mkTi ks (zlen ks) (ti_offset m) (ti_paste m) (ti_prompt m)) None.
+Proof. exact ti_set_content_every_state. Qed.
+Print Assumptions C17_textinput_setcontent_every_state.
+
+(* After any history, SetContent with a text derived from the widget's own content (itself, a
+   prefix, a suffix, an extension, another normalisation ...): that text, cursor at its end —
+   which is what the ideal editor holding the widget's text and cursor does with ISet. *)
+Theorem C17_textinput_setcontent_derived_text :
+  forall chars alnum (A : list cluster),
+    (forall cs, in_alpha A cs -> chars (cl_text cs) = Some cs) ->
+    forall e0 off paste pr os m',
+      in_alpha A (i_text e0) -> (exists ps, in_alpha A ps /\ paste = cl_text ps) ->
+      Forall (ti_op_ok A) os ->
+      ti_run chars alnum (ti_of_ideal e0 off paste pr) os = Some m' ->
+      forall ks, derived_from A (ti_content m') ks ->
+        ti_step chars alnum m' (OSetContent (cl_text ks)) =
+          TiOk (mkTi ks (zlen ks) (ti_offset m') (ti_paste m') (ti_prompt m')) None /\
+        i_step (ti_isw alnum) (i_make (ti_content m') (ti_cursor m')) (ISet ks) = i_make ks (zlen ks).
+Proof. exact ti_setcontent_derived. Qed.
+Print Assumptions C17_textinput_setcontent_derived_text.
+
+(* the instance a "content unchanged" shortcut breaks: SetContent(String()) keeps the text
+   and moves the cursor to the end *)
+Theorem C17_textinput_setcontent_same_text :
+  forall chars alnum (A : list cluster),
+    (forall cs, in_alpha A cs -> chars (cl_text cs) = Some cs) ->
+    forall e0 off paste pr os m',
+      in_alpha A (i_text e0) -> (exists ps, in_alpha A ps /\ paste = cl_text ps) ->
+      Forall (ti_op_ok A) os ->
+      ti_run chars alnum (ti_of_ideal e0 off paste pr) os = Some m' ->
+      exists m'', ti_run chars alnum m' [OSetContent (cl_text (ti_content m'))] = Some m'' /\
+        ti_content m'' = ti_content m' /\ ti_cursor m'' = zlen (ti_content m').
+Proof. exact ti_setcontent_same_text. Qed.
+Print Assumptions C17_textinput_setcontent_same_text.
 
 (* Draw terminates in every state and for every window width: the fuel of the model's
    scroll loop (cursor - offset + 1 iterations) always suffices. *)
@@ -311,3 +376,24 @@ Example C17_example_textinput_frames :
   ti_agree [97] (ti_new []) (hist 15 15 1 4) = false /\
   ti_draws_ok false [] 0 false (hist 15 15 1 4) = false.
 Proof. vm_compute. repeat split; reflexivity. Qed.
+
+(* derived texts, after cursor motions: the field holds a 世 é, the cursor is moved two to the
+   left; SetContent with the very same text puts the cursor at the end (3, not 1); with a
+   prefix and with the text extended likewise.  TextField: the same line, Home, then Reset
+   and the line again: cursor and count 3. *)
+Example C17_example_derived_edits :
+  let chars := chars_tab demo_alpha in
+  let x : list cluster := [([97], 1); ([19990], 2); ([101; 769], 1)] in
+  let pre := [OSetContent (cl_text x); OEv (EKey IkLeft); OEv (EKey IkLeft)] in
+  derived_from demo_alpha x x /\ derived_from demo_alpha x (firstn 2 x) /\
+  derived_from demo_alpha x (x ++ [([98], 1)]) /\
+  ti_run chars demo_alnum (ti_new []) pre = Some (mkTi x 1 0 [] []) /\
+  ti_run chars demo_alnum (ti_new []) (pre ++ [OSetContent (cl_text x)]) = Some (mkTi x 3 0 [] []) /\
+  ti_run chars demo_alnum (ti_new []) (pre ++ [OSetContent (cl_text (firstn 2 x))]) = Some (mkTi (firstn 2 x) 2 0 [] []) /\
+  ti_run chars demo_alnum (ti_new []) (pre ++ [OSetContent (cl_text (x ++ [([98], 1)]))]) = Some (mkTi (x ++ [([98], 1)]) 4 0 [] []) /\
+  exists log, tf_run (seg_tab demo_alpha) tf_empty [TInsertApi (cl_text x); TKey TkHome; TResetApi; TInsertApi (cl_text x)] =
+    Some (mkTf (cl_text x) 3 3, log).
+Proof.
+  cbv zeta. repeat split; try (unfold derived_from; repeat constructor; cbn; tauto); try (vm_compute; reflexivity).
+  eexists. vm_compute. reflexivity.
+Qed.
